@@ -346,11 +346,15 @@ pub struct GenModule {
     pub version: (u8, u8),
     pub bound: u32,
     pub mode: ModMode,
+    /// generator and schema words of the header (edge mode: arbitrary)
+    pub gen_schema: (u32, u32),
 }
 
 impl GenModule {
     pub fn words(&self) -> Vec<u32> {
         let mut w = header_words(self.version, self.bound);
+        w[2] = self.gen_schema.0;
+        w[4] = self.gen_schema.1;
         for p in &self.plans {
             w.extend(p.words());
         }
@@ -368,8 +372,8 @@ impl GenModule {
     }
     pub fn render(&self) -> String {
         let mut s = format!(
-            "; mode={:?} version={}.{} bound={}\n",
-            self.mode, self.version.0, self.version.1, self.bound
+            "; mode={:?} version={}.{} bound={} generator={:#x} schema={:#x}\n",
+            self.mode, self.version.0, self.version.1, self.bound, self.gen_schema.0, self.gen_schema.1
         );
         for p in &self.plans {
             s.push_str(&show_inst(&p.inst()));
@@ -443,6 +447,11 @@ pub fn gen_module(cs: &mut Cs, mode: ModMode, max_insts: usize) -> GenModule {
     let p = pools();
     let mut gen = Gen::new();
     gen.bound = 8 + cs.below(56) as u32;
+    if gen.edge_ids && cs.below(24) == 0 {
+        // instructions of thousands of words
+        gen.max_rep = 1400;
+        gen.long_strings = true;
+    }
     let mut out: Vec<Plan> = vec![];
     let version = match cs.below(8) {
         0 => (1, 0),
@@ -603,15 +612,29 @@ pub fn gen_module(cs: &mut Cs, mode: ModMode, max_insts: usize) -> GenModule {
             out.truncate(max_insts);
         }
     }
-    let bound = match cs.below(4) {
+    let mut bound = match cs.below(4) {
         0 => cs.u32(),
         _ => gen.next_id.max(gen.bound),
     };
+    let mut gen_schema = (0x000f_0000, 0);
+    if gen.edge_ids {
+        // header extremes: bound 0 / 1 / u32::MAX, arbitrary generator and schema words
+        match cs.below(6) {
+            0 => bound = 0,
+            1 => bound = u32::MAX,
+            2 => bound = 1,
+            _ => {}
+        }
+        if cs.bool() {
+            gen_schema = (cs.lit32(), cs.lit32());
+        }
+    }
     GenModule {
         plans: out,
         version,
         bound,
         mode,
+        gen_schema,
     }
 }
 
